@@ -164,7 +164,7 @@ class FeatureInterval(AbstractFeatureInterval):
         return dict(
             interval_starts=interval_starts,
             interval_ends=interval_ends,
-            strand=self.strand.name,
+            strand=(self.strand if chromosome_relative_coordinates else self.chunk_relative_strand).name,
             qualifiers=self._export_qualifiers_to_list(),
             feature_id=self.feature_id,
             feature_name=self.feature_name,
@@ -386,7 +386,7 @@ class FeatureInterval(AbstractFeatureInterval):
             (self.start if chromosome_relative_coordinates else self.chunk_relative_start) + 1,
             self.end if chromosome_relative_coordinates else self.chunk_relative_end,
             NULL_COLUMN,
-            self.strand,
+            self.strand if chromosome_relative_coordinates else self.chunk_relative_strand,
             CDSPhase.NONE,
             attributes,
         )
@@ -415,7 +415,7 @@ class FeatureInterval(AbstractFeatureInterval):
                 start + 1,
                 end,
                 NULL_COLUMN,
-                self.strand,
+                self.strand if chromosome_relative_coordinates else self.chunk_relative_strand,
                 CDSPhase.NONE,
                 attributes,
             )
@@ -470,7 +470,7 @@ class FeatureInterval(AbstractFeatureInterval):
             end,
             getattr(self, name, name),
             score,
-            self.strand,
+            self.strand if chromosome_relative_coordinates else self.chunk_relative_strand,
             0,  # thickStart always 0 for non-coding
             0,  # thickEnd always 0 for non-coding
             rgb,
